@@ -70,7 +70,10 @@ DIST_VARIANCES = [5e-324, 1.7976931348623157e308, 2.2250738585072014e-308, 1 / 3
 MODES = ('random', 'distinguished', 'tiny', 'huge', 'near_int', 'integers', 'adjacent', 'same_exp')
 LAYOUTS = ('plain', 'col_of_2d', 'row_of_2d', 'step', 'range', 'dataset')
 FILE_NAMES = ['c15-0.xye', 'c15-1.xye', 'c15 two words.dat', 'c15-no-extension', 'c15.v2.txt', 'C15_UPPER.XYE', 'c15-6.xy',
-              'c15-7.xye.bak']
+              'c15-7.xye.bak',
+              # slots 9..11 (beyond NPATHS: used by their own scenario only): names whose extension makes numpy write and
+              # read a compressed file - a path target like any other
+              'c15-8.xye.gz', 'c15-9.dat.bz2', 'c15-10.xz']
 # (dimension, names of the coordinates 1..4, coordinate unit, data unit)
 NAMINGS = [('x', ('c1', 'c2', 'c3', 'c4'), 'us', 'counts'),
            ('tof', ('wavelength', 'dspacing', 'two theta', 'Q'), 'ms', 'counts'),
@@ -408,6 +411,19 @@ def observe_loaded(res, ds: DataSet, xid):
     return loaded, got
 
 
+def _read_text(path):
+    """The text of a file written to `path` by name (numpy compresses by extension)."""
+    import bz2
+    import gzip
+    import lzma
+
+    opener = {'.gz': gzip.open, '.bz2': bz2.open, '.xz': lzma.open}.get(path.suffix)
+    if opener is None:
+        return path.read_text()
+    with opener(path, 'rt') as f:
+        return f.read()
+
+
 class Runner:
     """Executes save / load calls against the real module and records them as events."""
 
@@ -448,10 +464,10 @@ class Runner:
         try:
             if target == 'path':
                 xye.save_xye(path, da, **kw)
-                text = path.read_text()
+                text = _read_text(path)
             elif target == 'str':
                 xye.save_xye(str(path), da, **kw)
-                text = path.read_text()
+                text = _read_text(path)
             elif target == 'file':
                 with open(path, 'w') as f:
                     xye.save_xye(f, da, **kw)
@@ -732,6 +748,12 @@ def run(ctx):
     for n in [1, 2, 3, 50, 1000] + [rng.randrange(1, 200) for _ in range(200 if th else 25)]:
         add(_writable_cfg(rng, n), rand_header(rng), 'single_data', rng.choice(targets), slot=rng.randrange(1, NPATHS + 1),
             naming=rng.choice(NAMINGS), req=rng.choice(LOAD_REQS), load_via=rng.choice(['default', 'handle', 'str']))
+    # (c'') path names with a compression extension (.gz, .bz2, .xz): what is saved by name must load by name
+    for slot_c in (9, 10, 11):
+        for n in ([1, 3, 40] + ([200, 1000] if th else [])):
+            add(_writable_cfg(rng, n), rand_header(rng), rng.choice(['random', 'distinguished', 'tiny', 'huge']),
+                rng.choice(['path', 'str']), slot=slot_c, naming=rng.choice(NAMINGS), req=rng.choice(LOAD_REQS),
+                load_via=rng.choice(['default', 'str']), keep=False)
     # (d) the scenarios of XyeStore: a few data sets, a few paths, saves and loads in any order; the same DataArray
     #     object saved again (to another target) without being rebuilt
     for _ in range(300 if th else 40):
